@@ -448,8 +448,10 @@ func (h5) Gen(prop, tier string, r *simrt.Rng) (any, simrt.Config) {
 		Strategy: simrt.Pick(r, "sticky", "rr", "rw"), SwitchProb: 0.01, MaxSimNs: c.StartOffsetNs + c.RunNs + int64(time.Hour), MaxSteps: 3000000,
 		RandExtreme: simrt.Pick(r, 0.0, 0.1, 0.4),
 	}
-	if (prop == "C09" || prop == "C10") && r.Intn(2) == 0 {
-		sc.StallPermille, sc.StallMaxMs, sc.MaxStalls = simrt.Pick(r, 2, 10, 30), int(simrt.Pick(r, int64(5), 50, 3*c.FreqMs+1, 10*c.FreqMs+1)), 1+r.Intn(5)
+	if (prop == "C09" || prop == "C10" || ((prop == "C12" || prop == "C13") && r.Intn(2) == 0)) && r.Intn(2) == 0 {
+		// a stalled ticking goroutine gets late and skipped ticks: C12's cycles are N sub-ticks whenever they come
+		tick := h5Interval(c) / ms
+		sc.StallPermille, sc.StallMaxMs, sc.MaxStalls = simrt.Pick(r, 2, 10, 30), int(simrt.Pick(r, int64(5), 50, 3*tick+1, 10*tick+1)), 1+r.Intn(5)
 		sc.StallSites = "api.NewIterationWorker|workers.TriggerPool.Trigger|sendJobsForExecution"
 	}
 	return c, sc
